@@ -312,10 +312,10 @@ def c03_5(ctx: Ctx) -> RuleResult:
             # the flags use the perturbed results of the same evaluation as the reported evaluations
             fr = rk.get("failed_realizations")
             ev = kw.get("evaluations")
-            if fr is not None and ev is not None and fr[0] == "call" and ev[0] == "call":
-                pert_in_flag = [a for a in fr[2] if contains(a, lambda y: y[0] == "attr" and "perturbed" in y[2])]
+            if fr is not None and ev is not None and ev[0] == "call":
                 ekw = dict(ev[3])
-                ok = bool(pert_in_flag) and ekw.get("perturbed_objectives") in fr[2]
+                po = ekw.get("perturbed_objectives")
+                ok = po is not None and contains(fr, lambda y: y == po)
                 res.add(m, call_, "the failure flags are derived from the perturbed objectives reported in the same result", ok,
                         "" if ok else "flags and reported evaluations come from different evaluations", construct=f"{m.name}: flags from same evaluation")
     if n == 0:
